@@ -1,1 +1,2 @@
 import TjdProps.C14
+import TjdProps.C01
